@@ -25,7 +25,17 @@ def parseRat? (s : String) : Option Rat :=
 def ratStr (q : Rat) : String :=
   if q.den = 1 then toString q.num else s!"{q.num}/{q.den}"
 
-def jRat (q : Rat) : Json := Json.str (ratStr q)
+/-- results are compared at rtol ≥ 1e-12: a rational whose denominator has grown beyond 512 bits is
+reported rounded to 192 significant bits (relative error < 2⁻¹⁹⁰), which keeps lines short -/
+def compactRat (q : Rat) : Rat :=
+  if q.den.log2 ≤ 512 then q else
+  let n := q.num.natAbs
+  let shift : Int := 192 - (n.log2 : Int) + (q.den.log2 : Int)
+  let m : Nat := if shift ≥ 0 then (n <<< shift.toNat) / q.den else n / (q.den <<< (-shift).toNat)
+  let v : Rat := if shift ≥ 0 then mkRat m (2 ^ shift.toNat) else ((m * 2 ^ (-shift).toNat : Nat) : Rat)
+  if q.num < 0 then -v else v
+
+def jRat (q : Rat) : Json := Json.str (ratStr (compactRat q))
 def jRats (l : List Rat) : Json := Json.arr (l.map jRat).toArray
 
 abbrev M := Except String
